@@ -64,6 +64,8 @@ class Sub(Harness):
         S.append(dict(solver="normal", n=1, improve=True, rows="eq"))
         S.append(dict(solver="cauchy", n=1))
         S.append(dict(solver="ctangential", n=2, grid=6, improve=False))     # rank-deficient equalities, dependent rows first
+        S.append(dict(solver="tangential", n=2, grid=2, improve=False))      # two variables, linear model: bounds and radius symbolic
+        S.append(dict(solver="tangential", n=2, grid=2, improve=True))
         S.append(dict(solver="spider", n=1, npts=1))
         if tier == "thorough":
             S.append(dict(solver="spider", n=1, npts=2))
